@@ -574,3 +574,6 @@ def workload(ctx):
     ctx.floor("exhaustive_edges", 1500)
     ctx.floor("three_level", 2000)
     ctx.floor("roundtrips", 8000)
+
+
+RULE = RULE + '  Later additions: every node kind nested in itself at every position (3-64 levels); one object at two places whose contexts differ; read-refuse-read on the parser.'
